@@ -135,6 +135,22 @@ def convert(g, entry, strategy, check, ignore):
                 tree = gjson.build_tree(obj, opts)
             elif entry == "basic":
                 tree = gbuilder.BasicBuilder(opts).build_tree(obj)
+            elif entry == "ast":
+                # the Python-source entry point: the literal's AST (ast_to_tree wraps it in a module body)
+                import ast
+                tree = pydiff.ast_to_tree(ast.parse(repr(obj)), opts)
+            elif entry == "pickle":
+                # the pickle file type: pickle -> fickling AST -> ast_to_tree (an assignment `result = <value>`)
+                import pickle
+                import tempfile
+                from harness.common import scratch
+                fd, path = tempfile.mkstemp(suffix=".pickle", dir=scratch())
+                with os.fdopen(fd, "wb") as f:
+                    f.write(pickle.dumps(obj, protocol=4))
+                try:
+                    tree = graphtage.FILETYPES_BY_TYPENAME["pickle"].build_tree(path, opts)
+                finally:
+                    os.unlink(path)
             elif entry == "basic-reused":
                 # one builder instance used for several conversions: first every inner container object on its own
                 # (whatever that yields, including a cycle error), then the whole structure
@@ -149,7 +165,8 @@ def convert(g, entry, strategy, check, ignore):
             else:
                 tree = pydiff.build_tree(obj, opts)
             sys.setrecursionlimit(old)
-            rec["paths"] = path_set(tree.to_obj())
+            value_of = {"ast": lambda v: v[0], "pickle": lambda v: v[0]["value"]}.get(entry, lambda v: v)
+            rec["paths"] = path_set(value_of(tree.to_obj()))
     except Expired:
         rec["outcome"] = "hang"
         return rec
@@ -169,7 +186,7 @@ def convert(g, entry, strategy, check, ignore):
         sys.setrecursionlimit(old)
     try:
         with deadline(3.0):
-            rec["copyPaths"] = path_set(tree.copy().to_obj())
+            rec["copyPaths"] = path_set(value_of(tree.copy().to_obj()))
     except Expired:
         rec["copied"], rec["exc"] = False, "copy: timeout"
     except Exception as ex:
@@ -246,15 +263,20 @@ def run():
         graphs.append(g)
     chk.extra["random_graphs"] = n_random
     jobs = []
-    combos = [(e, s, c, i) for e in ("json", "basic", "pydiff", "basic-reused") for s in ("auto", "match", "none")
+    combos = [(e, s, c, i) for e in ("json", "basic", "pydiff", "basic-reused", "ast", "pickle") for s in ("auto", "match", "none")
               for c, i in ((True, False), (True, True), (False, False))]
-    per_graph = 4 if t == "quick" else len(combos)
+    per_graph = 6 if t == "quick" else len(combos)
     skipped_unspecified = 0
     for g in graphs:
         cyc = is_cyclic(g)
         for (e, s, c, i) in (r.sample(combos, per_graph) if per_graph < len(combos) else combos):
-            if e == "json" and (c, i) != (False, False):
-                continue       # json.build_tree has no cycle options
+            if e in ("json", "ast", "pickle") and (c, i) != (False, False):
+                continue       # json.build_tree / the AST and pickle entry points have no cycle options
+            if e in ("ast", "pickle"):
+                kinds_g = {nd["kind"] for nd in g}
+                refs = [t_ for nd in g for t_ in nd["kids"] if t_ > 0]
+                if cyc or "fset" in kinds_g or any(nd["kind"] == "set" and not nd["kids"] for nd in g) or (e == "pickle" and ("set" in kinds_g or len(refs) != len(set(refs)))):
+                    continue   # source text / a pickle stream cannot express these (cycles; frozenset is a call; memoised sharing)
             if e == "json" and any(nd["kind"] in ("set", "fset") for nd in g):
                 continue       # json.build_tree does not accept sets
             if cyc and e != "json" and not c:
@@ -300,7 +322,7 @@ def run():
                 "(objects of kind list/tuple/dict with slots pointing at any object or scalar: trees, DAGs with sharing, "
                 "self- and mutual cycles), materialised as Python objects and converted by json.build_tree, "
                 "BasicBuilder.build_tree (a fresh builder, and one builder instance reused after converting the inner objects) and "
-                "pydiff.build_tree; %s option combinations per graph; distinct by the tuple; "
+                "pydiff.build_tree, pydiff.ast_to_tree on the literal's source text and the pickle file type (acyclic graphs); %s option combinations per graph; distinct by the tuple; "
                 "non-trivial = some slot points at a container object" % ("4 sampled" if t == "quick" else "all"))
     chk.assumptions = ["the abstract value of a tree is the path set of TreeNode.to_obj() (tuples as lists)",
                        "cycles through tuples only cannot be built in Python and are skipped",
